@@ -15,6 +15,7 @@ C16, second pass on the whole-function models of Pollard P-1 (Model/Pm1Impl.lean
 -/
 import Ymq.Lemmas.Pp1Baby
 import Ymq.Lemmas.Pm1Walk
+import Ymq.Lemmas.Pm1Baby
 import Ymq.Props.C16Pp1
 import Ymq.Props.C16Pm1
 
@@ -176,6 +177,41 @@ example : (2 ^ 7 ≡ 1 [MOD 127]) ∧ expModn (mulm 381) (onem 381) 2 5 = some 3
     (walkBlock 381 (mulm 381 2 2) 11 [7, 11, 13]
       { x := 32, product := subm 381 32 (onem 381), productsRev := [onem 381], gaps := [mulm 381 2 2], pPrev := 5 }).map
       (fun w => (w.product % 127, w.pPrev)) = some (0, 13) := by
+  refine ⟨by decide, by decide +kernel, by decide +kernel⟩
+
+/-! ## P-1: the baby steps of the polynomial stage 2 -/
+
+/-- **The baby steps of `pm1_stage2_polyeval` are complete and never panic.** For every ring modulus `m`, every `g` and
+every `d1` with `6 ∣ d1`: the baby loop of the model (gap table, `gaps[gap/2 − 1]`, fuel) returns a list `vs`, and
+there is an index list `idx`, entry by entry `vs[j] ≡ g^(idx[j]) (mod m)`, whose members are EXACTLY the `r` with
+`isPm1Baby d1 r` — the set `pm1_cover` / `pm1_found` quantify over (`0 < r ≤ d1 + 1`, `gcd(r, d1) = 1`): the roots of
+the polynomial `P` handed to `from_roots` are the `g^r` of `pm1_found`, none missing. -/
+theorem pm1_baby_complete (m g : Nat) {d1 : Nat} (h6 : 6 ∣ d1) (hd : 0 < d1) :
+    ∃ vs idx, Ymq.Pm1Impl.babySteps m d1 g = some vs ∧ List.Forall₂ (fun v r => v ≡ g ^ r [MOD m]) vs idx ∧
+      ∀ r, r ∈ idx ↔ isPm1Baby d1 r = true := by
+  obtain ⟨vs, idx, h1, h2, h3⟩ := Ymq.Pm1Impl.babySteps_spec m g d1
+  refine ⟨vs, idx, h1, h2, fun r => ?_⟩
+  rw [h3, pm1Baby_iff h6 hd]
+  obtain ⟨k, rfl⟩ := h6
+  constructor
+  · rintro (rfl | ⟨a1, a2, _, _, a5⟩)
+    · exact ⟨by omega, by omega, by simp⟩
+    · exact ⟨by omega, a2, a5⟩
+  · rintro ⟨a1, a2, a3⟩
+    by_cases hr : r = 1
+    · exact Or.inl hr
+    · refine Or.inr ⟨by omega, a2, ?_, ?_, a3⟩
+      · rcases Nat.mod_two_eq_zero_or_one r with h | h
+        · exfalso
+          have : 2 ∣ Nat.gcd r (6 * k) := Nat.dvd_gcd (Nat.dvd_of_mod_eq_zero h) ⟨3 * k, by ring⟩
+          rw [a3] at this; omega
+        · exact h
+      · intro h
+        have : 3 ∣ Nat.gcd r (6 * k) := Nat.dvd_gcd (Nat.dvd_of_mod_eq_zero h) ⟨2 * k, by ring⟩
+        rw [a3] at this; omega
+
+example : (6 : Nat) ∣ 30 ∧ Ymq.Pm1Impl.babySteps 1009 30 3 = some [3, 169, 572, 103, 271, 421, 804, 896, 1001] ∧
+    ((List.range 32).filter (isPm1Baby 30)) = [1, 7, 11, 13, 17, 19, 23, 29, 31] := by
   refine ⟨by decide, by decide +kernel, by decide +kernel⟩
 
 end Ymq.C16
